@@ -10,7 +10,7 @@ from ..util import EPS
 
 PROPERTY = "C17"
 PYTEST_PREFIX = "C17"
-TECHNIQUE = "runtime monitoring: contract monitors against mpmath on swept arguments, branch-threshold neighbourhoods and in-situ arguments"
+TECHNIQUE = "runtime monitoring: contract monitors against mpmath on swept arguments, branch-threshold neighbourhoods, lattice walks (pure-function history clause) and in-situ arguments"
 LEVEL = "exploration"
 RULE = ("Contract monitors on the real exported v, w, vt, wt, phi_major against 40-digit mpmath values. Sweep: t log-dense "
         "in [1e-8,1e-2] incl. both ends; x uniform in [-40,40], extra density in [-9,9], +-64-ulp neighbourhoods of every "
